@@ -49,6 +49,7 @@ type quantInfo struct {
 	smt  []string // the SMT binder names
 	body string
 	at   int
+	offs []string // element-wise equalities: the two base offsets (used to align instances)
 }
 
 // Obl is one proof obligation.
@@ -472,6 +473,21 @@ func (c *Ctx) skolemize(o *Obl, pc, cond string) {
 		}
 		if ok {
 			extra = append(extra, fmt.Sprintf("(assert (=> %s %s))", name, inst(qi)))
+			// element-wise equalities over shifted windows: also the instances that line
+			// the hypothesis' windows up with the goal's
+			if len(q.offs) > 0 && len(qi.offs) > 0 && len(qi.smt) == 1 {
+				seen := map[string]bool{}
+				for _, g := range q.offs {
+					for _, h := range qi.offs {
+						if g == h || seen[g+"|"+h] {
+							continue
+						}
+						seen[g+"|"+h] = true
+						idx := fmt.Sprintf("(+ %s (- %s %s))", sk[qi.src[0]], g, h)
+						extra = append(extra, fmt.Sprintf("(assert (=> %s %s))", name, strings.ReplaceAll(qi.body, qi.smt[0], idx)))
+					}
+				}
+			}
 		} else if len(qi.src) == 1 && len(q.src) <= 3 {
 			// a one-variable hypothesis whose binder has another name: try it at each skolem of the goal
 			for _, gs := range q.src {
